@@ -75,6 +75,19 @@ func scenarios(tier string, yield func(any) bool) {
 			}
 		}
 	}
+	// the same configurations with their string options written as placeholders (resolved when
+	// the module is provisioned): every option set through the environment, and each option in
+	// turn resolving to nothing.  Driven with the corpus messages and all their prefixes.
+	for _, sp := range append(mrun.Specs(), mrun.HandlerSpecs()...) {
+		if sp.Module == "quic" {
+			continue
+		}
+		for _, ph := range mrun.PlaceholderForms(sp) {
+			if !yield(&Scn{Spec: ph, Kind: "ph", Shard: 0, Of: 1}) {
+				return
+			}
+		}
+	}
 }
 
 // load provisions the matcher or parsing handler of a scenario.
@@ -198,6 +211,12 @@ func (t *tester) add(in []byte) {
 func run(tier string, scAny any, rep *runner.Report) {
 	sc := scAny.(*Scn)
 	l, h, closeFn, err := load(sc.Spec)
+	if err != nil && sc.Kind == "ph" {
+		// an option that resolves to nothing may be refused at provisioning: nothing to drive then
+		rep.Scenarios++
+		rep.Count("placeholder-forms-refused-at-provision", 1)
+		return
+	}
 	if err != nil {
 		rep.Note(fmt.Sprintf("matcher %s does not load: %v", sc.Spec, err))
 		rep.Incident("MATCHER-LOAD-FAILED")
@@ -235,6 +254,21 @@ func run(tier string, scAny any, rep *runner.Report) {
 			i++
 			return i%4096 != 0 || !rep.Expired()
 		})
+	case "ph":
+		rep.Count("placeholder-forms-driven", 1)
+		base := sc.Spec
+		base.Form, base.Env = "", nil
+		for _, m := range mrun.Seeds(base) {
+			if len(m) > 4096 {
+				continue
+			}
+			for n := 0; n <= len(m); n++ {
+				if _, dup := seen[string(m[:n])]; !dup {
+					seen[string(m[:n])] = struct{}{}
+					t.add(m[:n])
+				}
+			}
+		}
 	case "corpus":
 		corpus := mrun.Seeds(sc.Spec)
 		alpha := enum.Alphabet(dir, 12)
